@@ -36,4 +36,12 @@ CHECKS = {
             "assumptions": ["Go atomics are sequentially consistent; plain data races are C12's business", "timers fire only when no controlled thread can run (fake clock)", "instrumenter + shims trusted; replays are checked for determinism"],
         },
     },
+    "C05": {
+        "pkg": "harness/c05",
+        "budget_s": {"quick": 150, "thorough": 1500},
+        "meta": {
+            "rule": "explicit-state BFS over real machines with logging handlers bound for every handler name: all 2-state schemas (flags + Require/Add/Remove/After), 3-state After x Require graphs (quick every 4th / thorough all 4096), 4-state After-only graphs (quick every 8th / thorough all 4096), families with two bindings; x Add/Remove/Set over all non-empty subsets x every veto position of the step's negotiation calls; a case is non-trivial when >=1 handler ran",
+            "assumptions": SEQ_ASSUME + ["no precedence demand is made for a state that lies on a cycle of the After/Require graph of the whole schema", "AnyEnter is only required to run inside the negotiation phase", "relative order of two bindings is not demanded"],
+        },
+    },
 }
